@@ -176,23 +176,20 @@ Proof.
   intros C P T. unfold on_done.
   assert (EP : forall r, Post (exit_loop (push s r))).
   { intro r. apply exit_loop_post. eapply PInv_frame; [| |exact P]; reflexivity. }
+  assert (EC : Post (exit_loop (do_close (if sd then push s (partial_of cur) else s)))).
+  { apply exit_loop_post. destruct sd; (eapply PInv_frame; [| |exact P]; reflexivity). }
   destruct o as [keep status| |status| | | | ].
   - apply finish_fresh_post; assumption.
-  - destruct sd.
-    + destruct (closed s); [apply EP|].
-      destruct (push_frames _ {| r_id := id_of cur; r_status := 200; r_done := true |} C P T) as (C1 & P1 & T1).
-      destruct (set_ka_frames _ (negb (close_of cur)) C1 P1 T1) as (C2 & P2 & T2).
-      apply payload_check_post; assumption.
-    + destruct (set_ka_frames _ (negb (close_of cur)) C P T) as (C2 & P2 & T2). apply payload_check_post; assumption.
-  - apply finish_fresh_post; assumption.
+  - destruct sd; [|apply finish_fresh_post; assumption].
+    destruct (closed s); [apply EP|].
+    destruct (push_frames _ {| r_id := id_of cur; r_status := 200; r_done := true |} C P T) as (C1 & P1 & T1).
+    destruct (set_ka_frames _ (negb (close_of cur)) C1 P1 T1) as (C2 & P2 & T2).
+    apply payload_check_post; assumption.
   - destruct sd; [apply EP|apply finish_fresh_post; assumption].
   - destruct sd; [apply EP|apply finish_fresh_post; assumption].
-  - apply exit_loop_post. destruct sd; (eapply PInv_frame; [| |exact P]; reflexivity).
-  - assert (H0 : Core (if sd then push s (partial_of cur) else s) /\ PInv (if sd then push s (partial_of cur) else s) /\
-                 Pre (if sd then push s (partial_of cur) else s)).
-    { destruct sd; [apply push_frames; assumption|auto]. }
-    destruct H0 as (C0 & P0 & T0).
-    destruct (set_ka_frames _ (negb (close_of cur)) C0 P0 T0) as (C2 & P2 & T2). apply payload_check_post; assumption.
+  - destruct sd; [apply EP|apply finish_fresh_post; assumption].
+  - exact EC.
+  - exact EC.
 Qed.
 
 (* PInv alone does not need Pre *)
@@ -235,24 +232,23 @@ Proof.
   intros C P.
   assert (PP : forall r, Core (push s r) /\ PInv (push s r)).
   { intro r. split; [apply Core_push; exact C|eapply PInv_frame; [| |exact P]; reflexivity]. }
-  assert (FF : forall status k, PInv (finish_fresh c s cur sd status k)).
-  { intros status k. unfold finish_fresh. destruct (closed s); [apply exit_loop_post; exact P|].
+  assert (FF : forall sd0 status k, PInv (finish_fresh c s cur sd0 status k)).
+  { intros sd0 status k. unfold finish_fresh. destruct (closed s); [apply exit_loop_post; exact P|].
     apply payload_check_P.
-    - apply Core_set_ka, Core_push. destruct sd; [apply Core_push|]; exact C.
-    - eapply PInv_frame; [| |exact P]; destruct sd; reflexivity. }
+    - apply Core_set_ka, Core_push. destruct sd0; [apply Core_push|]; exact C.
+    - eapply PInv_frame; [| |exact P]; destruct sd0; reflexivity. }
+  assert (EC : PInv (exit_loop (do_close (if sd then push s (partial_of cur) else s)))).
+  { apply exit_loop_post. destruct sd; (eapply PInv_frame; [| |exact P]; reflexivity). }
   unfold on_done. destruct o as [keep status| |status| | | | ].
   - apply FF.
-  - destruct sd.
-    + destruct (closed s); [apply exit_loop_post, PP|].
-      apply payload_check_P; [apply Core_set_ka, Core_push; exact C|eapply PInv_frame; [| |exact P]; reflexivity].
-    + apply payload_check_P; [apply Core_set_ka; exact C|eapply PInv_frame; [| |exact P]; reflexivity].
-  - apply FF.
+  - destruct sd; [|apply FF].
+    destruct (closed s); [apply exit_loop_post, PP|].
+    apply payload_check_P; [apply Core_set_ka, Core_push; exact C|eapply PInv_frame; [| |exact P]; reflexivity].
   - destruct sd; [apply exit_loop_post, PP|apply FF].
   - destruct sd; [apply exit_loop_post, PP|apply FF].
-  - apply exit_loop_post. destruct sd; (eapply PInv_frame; [| |exact P]; reflexivity).
-  - apply payload_check_P.
-    + apply Core_set_ka. destruct sd; [apply Core_push|]; exact C.
-    + eapply PInv_frame; [| |exact P]; destruct sd; reflexivity.
+  - destruct sd; [apply exit_loop_post, PP|apply FF].
+  - exact EC.
+  - exact EC.
 Qed.
 
 (* ---- steps ----------------------------------------------------------------------------------------- *)
